@@ -101,7 +101,10 @@ var c08Repeat = []struct {
 	{"grid-template-columns", "U 1fr U", "len", []string{"grid-template-columns"}},
 }
 
-var c08Invalid = []string{"unknown-prop: 1px", "-webkit-foo: bar", "color: 12px", "width: red", "margin-left:", "color: {}", "display: blocky", "width: 10 px", "colour: red", "margin: 1px 2px 3px 4px 5px", "color", ": red", "width: 10pxx", "z-index: 1.5", "opacity: red", "tab-size: red", "width: 10PXX", "float: middle", "border-top-style: 2px", "font-size: -1px", "padding-left: -2px", "@foo bar"}
+var c08Invalid = []string{"unknown-prop: 1px", "-webkit-foo: bar", "color: 12px", "width: red", "margin-left:", "color: {}", "display: blocky", "width: 10 px", "colour: red", "margin: 1px 2px 3px 4px 5px", "color", ": red", "width: 10pxx", "z-index: 1.5", "opacity: red", "tab-size: red", "width: 10PXX", "float: middle", "border-top-style: 2px", "font-size: -1px", "padding-left: -2px", "@foo bar",
+	// shorthands whose first components are valid and a later one is not: nothing of them may apply
+	"margin: 1px 2px bogus", "padding: 3px 4px 5px -1px", "border-width: 1px 2px red", "border-color: red blue 3px", "border-style: solid dashed 2px", "border-radius: 1px 2px 3px 4px 5px", "border: 1px solid red blue",
+	"flex: 1 1 1px 1", "list-style: square inside bogus", "columns: 2 2", "outline: 1px solid red 2px", "border-top: 1px 2px", "flex-flow: row wrap bogus", "text-decoration: underline 2", "background: red blue", "font: bold 12px", "gap: 1px 2px 3px", "overflow: hidden bogus"}
 
 // reference expansion of the box-model and border-side shorthands (CSS 2.1 8.3, 8.4, 8.5)
 func c08ExpandSides(prefix, suffix string, vals []string) [][2]string {
